@@ -198,7 +198,7 @@ def expand_to_inactive(values, target_shape, active_dims):
         active_dims = [active_dims]
 
     full_array = zeros(target_shape, dtype=values.dtype)
-    full_array = full_array.at[..., active_dims].set(values)
+    full_array = full_array.at[..., active_dims].add(values)
 
     return full_array
 
